@@ -122,9 +122,25 @@ class Project:
             link = os.path.join(d, "bin", n)
             if not os.path.exists(link):
                 os.symlink(sh, link)
-        os.makedirs(self.path("." + kind), exist_ok=True)
+        # a git checkout's `.git` is a DIRECTORY in a plain clone but a FILE ("gitdir: …") in a linked worktree, a submodule or a
+        # --separate-git-dir clone: every third fake git project is of the second kind
+        Project._fake_count = getattr(Project, "_fake_count", 0) + 1
+        marker = self.path("." + kind)
+        if kind == "git" and Project._fake_count % 3 == 0 and not os.path.exists(marker):
+            with open(marker, "w") as f:
+                f.write("gitdir: /nonexistent/worktrees/x\n")
+        else:
+            os.makedirs(marker, exist_ok=True)
         self.fake = d
         return d
+
+    def drop_vcs_marker(self, kind):
+        """make the project look like it is not under version control"""
+        marker = self.path("." + kind)
+        if os.path.isdir(marker):
+            os.rmdir(marker)
+        elif os.path.exists(marker):
+            os.unlink(marker)
 
     def fake_set(self, name, text):
         with open(os.path.join(self.fake, name), "w") as f:
@@ -185,8 +201,17 @@ class Project:
             raise RuntimeError("git %s failed: %s" % (args, p.stderr.decode("utf-8", "replace")))
         return p.stdout.decode("utf-8", "replace")
 
-    def git_init(self):
-        self.git("init", "-q", "-b", "main")
+    def git_init(self, separate=None):
+        """`separate`: keep the repository outside the work tree (`.git` is then a FILE, as in linked worktrees and submodules);
+        default: every third real repository"""
+        Project._git_count = getattr(Project, "_git_count", 0) + 1
+        if separate is None:
+            separate = Project._git_count % 3 == 0
+        if separate:
+            self.gitdir = self.dir.rstrip("/") + ".gitdir"
+            self.git("init", "-q", "-b", "main", "--separate-git-dir", self.gitdir)
+        else:
+            self.git("init", "-q", "-b", "main")
         self.git("config", "user.name", "t")
         self.git("config", "user.email", "t@e")
         self.git("config", "commit.gpgsign", "false")
@@ -194,6 +219,8 @@ class Project:
 
     def cleanup(self):
         shutil.rmtree(self.dir, ignore_errors=True)
+        if getattr(self, "gitdir", None):
+            shutil.rmtree(self.gitdir, ignore_errors=True)
 
     def __enter__(self):
         return self
